@@ -202,6 +202,19 @@ int encode_operands(struct instr *instrc) {
     }
     instrc->rd_offset = instrc->opd[0].reg & VALUE_MASK;
   }
+  // movzx: the opcode depends on the width of the source (0f b6 byte source,
+  // 0f b7 word source); a 'word' keyword sizes the source and must not become
+  // an operand-size prefix for the destination
+  if (NAME(instrc->key, movzx)) {
+    unsigned int src_mode = instrc->opd[1].reg & MODE_MASK;
+    instrc->op_offset =
+        (!instrc->mem_disp && (src_mode == reg16 || src_mode == ext16)) ||
+        instrc->keyword.is_word;
+    if (instrc->keyword.is_word) {
+      instrc->keyword.is_word = false;
+      instrc->keyword.is_byte = true;
+    }
+  }
   // set 'byte' keyword
   if (instrc->mem_disp)
     auto_set_byte(instrc);
